@@ -9,7 +9,8 @@ package snapstate_test
 // change fails => everything is undone (current 7, sequence [7 11], channel, cohort ...) except the table: it is
 // empty afterwards, i.e. revision 11 is now blocked from automatic refresh (SnapState.Block() = [11]) although
 // it was not before the failed operation.
-// Failing obligation: overlord/snapstate.(*SnapManager).doLinkSnap#guard#mapdelete:SnapState.RevertStatus[c10-revert-status-saved-before-change]
+// Failing obligation: overlord/snapstate.(*SnapManager).doLinkSnap#guard#mapdelete:SnapState.RevertStatus[c10-revert-status-changed-only-when-saved].1
+// (clause in the doLinkSnap block of overlord/snapstate/c13_contracts_verif.go, props C13 C10)
 
 import (
 	"testing"
